@@ -1,0 +1,99 @@
+//go:build verif
+// +build verif
+
+// Verification hooks (build tag "verif"). Nothing in this file is compiled into normal builds.
+// VerifNode drives a real WorkerLoop synchronously, one event at a time, re-stating the bodies of the
+// select cases of MainLoop.run and WorkerLoop.Run (which cannot be called separately).
+
+package leanhelix
+
+import (
+	"github.com/orbs-network/lean-helix-go/services/interfaces"
+	"github.com/orbs-network/lean-helix-go/services/leanhelixterm"
+	L "github.com/orbs-network/lean-helix-go/services/logger"
+	"github.com/orbs-network/lean-helix-go/services/rawmessagesfilter"
+	"github.com/orbs-network/lean-helix-go/spec/types/go/primitives"
+	"github.com/orbs-network/lean-helix-go/state"
+)
+
+type VerifNode struct {
+	W                    *WorkerLoop
+	S                    *state.State
+	logger               L.LHLogger
+	maxBlockHeightBySync *primitives.BlockHeight
+}
+
+func NewVerifNode(config *interfaces.Config, onCommit interfaces.OnCommitCallback, onNewRound interfaces.OnNewConsensusRoundCallback) *VerifNode {
+	s := state.NewState()
+	logger := L.NewLhLogger(config, s)
+	w := NewWorkerLoop(s, config, logger, config.OverrideElectionTrigger, onCommit, onNewRound)
+	return &VerifNode{W: w, S: s, logger: logger}
+}
+
+// Deliver = body of the worker loop's message case.
+func (n *VerifNode) Deliver(msg *interfaces.ConsensusRawMessage) {
+	parsedMessage := interfaces.ToConsensusMessage(msg)
+	n.logger.Debug("LHFLOW LHMSG WORKERLOOP RECEIVED %v from %v for H=%d V=%d", parsedMessage.MessageType(), parsedMessage.SenderMemberId(), parsedMessage.BlockHeight(), parsedMessage.View())
+	n.W.filter.HandleConsensusRawMessage(msg)
+}
+
+// MainGc = first statement of every main loop iteration.
+func (n *VerifNode) MainGc() { n.S.GcOldContexts() }
+
+// Sync = body of the main loop's NodeSync case followed by the worker's NodeSync case.
+// Returns false if the main loop would have dropped the request.
+func (n *VerifNode) Sync(block interfaces.Block, prevBlockProofBytes []byte) bool {
+	n.S.GcOldContexts()
+	var receivedBlockHeight primitives.BlockHeight
+	if block != nil {
+		receivedBlockHeight = block.Height()
+	}
+	if n.maxBlockHeightBySync != nil && *n.maxBlockHeightBySync >= receivedBlockHeight {
+		return false
+	}
+	hv := state.NewHeightView(receivedBlockHeight+1, 0)
+	n.S.Contexts.CancelOlderThan(hv)
+	if _, err := n.S.Contexts.For(hv); err != nil {
+		return false
+	}
+	if n.maxBlockHeightBySync == nil {
+		n.maxBlockHeightBySync = new(primitives.BlockHeight)
+	}
+	*n.maxBlockHeightBySync = receivedBlockHeight
+	n.W.handleUpdateState(&blockWithProof{block: block, prevBlockProofBytes: prevBlockProofBytes})
+	return true
+}
+
+// Election = body of the main loop's election case followed by the worker's election case.
+func (n *VerifNode) Election(h primitives.BlockHeight, v primitives.View, moveToNextLeader func()) bool {
+	n.S.GcOldContexts()
+	targetHv := state.NewHeightView(h, v+1)
+	n.S.Contexts.CancelOlderThan(targetHv)
+	if _, err := n.S.Contexts.For(targetHv); err != nil {
+		return false
+	}
+	current := n.S.HeightView()
+	if current.Height() != h || current.View() != v {
+		return false
+	}
+	moveToNextLeader()
+	return true
+}
+
+func (n *VerifNode) Dispose() { n.W.cleanupCurrentTerm() }
+
+func (n *VerifNode) Term() *leanhelixterm.LeanHelixTerm          { return n.W.leanHelixTerm }
+func (n *VerifNode) Filter() *rawmessagesfilter.RawMessageFilter { return n.W.filter }
+
+// VerifWorker exposes the worker of a running MainLoop (read-only use by the harness).
+func (m *MainLoop) VerifWorker() *WorkerLoop { return m.worker }
+
+func (lh *WorkerLoop) VerifTerm() *leanhelixterm.LeanHelixTerm          { return lh.leanHelixTerm }
+func (lh *WorkerLoop) VerifFilter() *rawmessagesfilter.RawMessageFilter { return lh.filter }
+
+func (n *VerifNode) VerifMaxSync() string {
+	if n.maxBlockHeightBySync == nil {
+		return "nil"
+	}
+	return n.maxBlockHeightBySync.String()
+}
